@@ -477,6 +477,152 @@ Example legacy_rp_sensitive_applies :
   exists c p, ht_rp 0x41 = true /\ legacy_tx t 0 [] 0x41 = Some c /\ wf_tx c = true /\ preimage_legacy t 0 [] 0x41 = Some p.
 Proof. cbn. eexists. eexists. repeat split. Qed.
 
+(* SIGHASH_SINGLE above index 0: the hashed copy carries idx blanked outputs (not wire-representable, so the copy is
+   outside wf_tx) followed by the one real output.  Both sides carry the same blanks, so they cancel; what is left is
+   injective as before.  The hypothesis is well-formedness of the copy WITHOUT its blanked outputs. *)
+Definition blank : txout := mk_out zero32 max_conf_value [] zero32 [] [].
+Lemma map_blank l : map blank_out l = repeat blank (length l).
+Proof. induction l as [|o l IH]; [reflexivity|]. cbn [map length repeat]. rewrite IH. reflexivity. Qed.
+
+Lemma enc_list_app {A} (e : A -> bytes) l1 l2 : enc_list e (l1 ++ l2) = enc_list e l1 ++ enc_list e l2.
+Proof. unfold enc_list. rewrite map_app, concat_app. reflexivity. Qed.
+
+Definition p_head : parser (N * list txin) :=
+  ver <- p_le 4 ;; nin <- p_varint ;; ins <- p_list p_in nin ;; ret (ver, ins).
+
+Lemma p_head_ser v ins R : v < two32 -> lenL ins < two64 -> (forall i, In i ins -> wf_in i = true) ->
+  p_head (le_enc 4 v ++ varint (lenL ins) ++ enc_list ser_in ins ++ R) = Some ((v, map strip_in ins), R).
+Proof.
+  intros Hv Hn H1. unfold p_head, bind.
+  rewrite p_le_app by (cbn; unfold two32 in *; lia).
+  rewrite p_varint_app by lia.
+  rewrite (p_list_app_map ser_in strip_in p_in);
+    [| intros; apply p_in_app; apply H1; assumption | intros; apply ser_in_nonempty; apply H1; assumption].
+  reflexivity.
+Qed.
+
+Lemma le4_inj a b : a < two32 -> b < two32 -> le_enc 4 a = le_enc 4 b -> a = b.
+Proof.
+  intros Ha Hb E.
+  assert (X : p_le 4 (le_enc 4 a ++ []) = Some (a, [])) by (apply p_le_app; cbn; unfold two32 in *; lia).
+  assert (Y : p_le 4 (le_enc 4 b ++ []) = Some (b, [])) by (apply p_le_app; cbn; unfold two32 in *; lia).
+  rewrite E in X. rewrite X in Y. congruence.
+Qed.
+
+Definition single_core (c : tx) (k : nat) : tx :=
+  mk_tx (t_version c) (t_flag c) (t_locktime c) (t_ins c) (skipn k (t_outs c)).
+
+Opaque le_enc.
+Lemma single_blanks_sensitive rp (c c' : tx) (pre pre' : list txout) (o o' : txout) :
+  t_outs c = map blank_out pre ++ [o] -> t_outs c' = map blank_out pre' ++ [o'] ->
+  length pre = length pre' ->
+  wf_tx (single_core c (length pre)) = true -> wf_tx (single_core c' (length pre')) = true ->
+  ser_tx false true true rp c = ser_tx false true true rp c' ->
+  sig_view rp c = sig_view rp c'.
+Proof.
+  intros O O' L W W' E.
+  assert (K : skipn (length pre) (t_outs c) = [o]).
+  { rewrite O. rewrite skipn_app, map_length, Nat.sub_diag. rewrite skipn_all2 by (rewrite map_length; lia). reflexivity. }
+  assert (K' : skipn (length pre') (t_outs c') = [o']).
+  { rewrite O'. rewrite skipn_app, map_length, Nat.sub_diag. rewrite skipn_all2 by (rewrite map_length; lia). reflexivity. }
+  apply wf_tx_parts in W as (Hv & Hl & Hni & _ & H1 & H2).
+  apply wf_tx_parts in W' as (Hv' & Hl' & Hni' & _ & H1' & H2').
+  unfold single_core in *. cbn [t_version t_locktime t_ins t_outs] in *. rewrite K in H2. rewrite K' in H2'.
+  assert (Wo : wf_out o = true) by (apply H2; left; reflexivity).
+  assert (Wo' : wf_out o' = true) by (apply H2'; left; reflexivity).
+  unfold ser_tx in E. cbn [andb negb app] in E. rewrite !app_nil_r in E.
+  (* head: version and inputs *)
+  pose proof (p_head_ser (t_version c) (t_ins c)
+    (varint (lenL (t_outs c)) ++ enc_list (ser_out false rp) (t_outs c) ++ le_enc 4 (t_locktime c)) Hv Hni H1) as P.
+  pose proof (p_head_ser (t_version c') (t_ins c')
+    (varint (lenL (t_outs c')) ++ enc_list (ser_out false rp) (t_outs c') ++ le_enc 4 (t_locktime c')) Hv' Hni' H1') as P'.
+  rewrite E in P. rewrite P in P'. injection P' as Ev Ei R. clear P E.
+  (* outputs: same count, same blanks *)
+  assert (LO : lenL (t_outs c) = lenL (t_outs c')).
+  { unfold lenL. rewrite O, O', !app_length, !map_length, L. reflexivity. }
+  rewrite LO in R. apply app_inv_head in R.
+  rewrite O, O', !enc_list_app, !map_blank, L, <- !app_assoc in R. apply app_inv_head in R.
+  unfold enc_list in R. cbn [map concat] in R. rewrite !app_nil_r in R.
+  unfold sig_view. rewrite Ev.
+  assert (A : map sig_in_view (t_ins c) = map sig_in_view (t_ins c')).
+  { clear -Ei. revert Ei. generalize (t_ins c) (t_ins c'). induction l as [|i l IH]; intros [|i' l'] E; try discriminate; [reflexivity|].
+    cbn [map] in *. assert (E1 : strip_in i = strip_in i') by congruence. assert (E2 : map strip_in l = map strip_in l') by congruence.
+    rewrite (IH _ E2), (strip_sig_in _ _ E1). reflexivity. }
+  rewrite A, O, O', !map_app, !map_blank, L. cbn [map].
+  destruct rp.
+  - pose proof (p_out_rp_app o (le_enc 4 (t_locktime c)) Wo) as Q.
+    pose proof (p_out_rp_app o' (le_enc 4 (t_locktime c')) Wo') as Q'.
+    rewrite R in Q. rewrite Q in Q'.
+    assert (El : le_enc 4 (t_locktime c) = le_enc 4 (t_locktime c')) by congruence.
+    assert (Eo : strip_out o = strip_out o') by congruence.
+    assert (Ep : out_proofs o = out_proofs o') by congruence.
+    assert (Lk : t_locktime c = t_locktime c') by (apply le4_inj; assumption).
+    rewrite Lk, (strip_base _ _ Eo), Ep. reflexivity.
+  - pose proof (p_out_app o (le_enc 4 (t_locktime c)) Wo) as Q.
+    pose proof (p_out_app o' (le_enc 4 (t_locktime c')) Wo') as Q'.
+    rewrite R in Q. rewrite Q in Q'.
+    assert (El : le_enc 4 (t_locktime c) = le_enc 4 (t_locktime c')) by congruence.
+    assert (Eo : strip_out o = strip_out o') by congruence.
+    assert (Lk : t_locktime c = t_locktime c') by (apply le4_inj; assumption).
+    rewrite Lk, (strip_base _ _ Eo). reflexivity.
+Qed.
+Transparent le_enc.
+
+Lemma legacy_tx_single_shape t idx script ht c :
+  ht_single ht = true -> legacy_tx t idx script ht = Some c ->
+  exists o, t_outs c = map blank_out (firstn idx (t_outs t)) ++ [o] /\ length (firstn idx (t_outs t)) = idx.
+Proof.
+  intros S. assert (Nn : ht_none ht = false).
+  { unfold ht_single, ht_none in *. apply N.eqb_eq in S. rewrite S. reflexivity. }
+  unfold legacy_tx. destruct (nth_error (t_ins t) idx); [|discriminate]. rewrite Nn, S.
+  destruct (Nat.leb_spec (length (t_outs t)) idx) as [|Lt]; [discriminate|].
+  intro E. injection E as <-. cbn [t_outs].
+  destruct (skipn idx (t_outs t)) as [|o rest] eqn:K.
+  { apply (f_equal (@length txout)) in K. rewrite skipn_length in K. cbn in K. lia. }
+  exists o. split; [reflexivity|]. apply firstn_length_le. lia.
+Qed.
+
+Opaque le_enc.
+Theorem legacy_single_sensitive t t' idx script script' ht c c' p :
+  ht_single ht = true ->
+  legacy_tx t idx script ht = Some c -> legacy_tx t' idx script' ht = Some c' ->
+  wf_tx (single_core c idx) = true -> wf_tx (single_core c' idx) = true ->
+  preimage_legacy t idx script ht = Some p -> preimage_legacy t' idx script' ht = Some p ->
+  sig_view (ht_rp ht) c = sig_view (ht_rp ht) c'.
+Proof.
+  intros S C C' W W'. unfold preimage_legacy. rewrite C, C'.
+  intros P P'. injection P as P. injection P' as P'. rewrite <- P' in P.
+  apply app_inv_len_tail in P as [P _]; [|reflexivity].
+  destruct (legacy_tx_single_shape _ _ _ _ _ S C) as (o & O & L).
+  destruct (legacy_tx_single_shape _ _ _ _ _ S C') as (o' & O' & L').
+  apply (single_blanks_sensitive (ht_rp ht) c c' _ _ o o' O O'); [congruence | rewrite L; exact W | rewrite L'; exact W' | exact P].
+Qed.
+Transparent le_enc.
+
+(* every hash type and every index: equal legacy pre-images force equal covered views.  For SINGLE the hashed copy
+   is required to be well formed once its blanked outputs are dropped (single_core); otherwise as a whole. *)
+Definition legacy_core (ht : N) (idx : nat) (c : tx) : tx := if ht_single ht then single_core c idx else c.
+
+Theorem legacy_sensitive_full t t' idx script script' ht c c' p :
+  legacy_tx t idx script ht = Some c -> legacy_tx t' idx script' ht = Some c' ->
+  wf_tx (legacy_core ht idx c) = true -> wf_tx (legacy_core ht idx c') = true ->
+  preimage_legacy t idx script ht = Some p -> preimage_legacy t' idx script' ht = Some p ->
+  sig_view (ht_rp ht) c = sig_view (ht_rp ht) c'.
+Proof.
+  unfold legacy_core. destruct (ht_single ht) eqn:S; intros C C' W W' P P'.
+  - eapply legacy_single_sensitive; eassumption.
+  - eapply legacy_sensitive_any; eassumption.
+Qed.
+
+(* non-vacuity: SINGLE on input 1 of a two-input, two-output transaction *)
+Example legacy_single_sensitive_applies :
+  let i := mk_in (repeat x01 32) 0 5 [] [] false [] None [] [] in
+  let o := mk_out (x01 :: repeat x01 32) (x01 :: repeat x00 8) [] [x00] [] [] in
+  let t := mk_tx 2 0 0 [i; i] [o; o] in
+  exists c p, ht_single 3 = true /\ legacy_tx t 1 [] 3 = Some c /\ wf_tx (single_core c 1) = true /\
+              wf_tx c = false /\ preimage_legacy t 1 [] 3 = Some p.
+Proof. cbn. eexists. eexists. repeat split. Qed.
+
 (* the copy that is hashed is well formed whenever the transaction is and no earlier output is blanked *)
 Lemma set_script_wf s i : wf_in i = true -> lenN s < two64 -> wf_in (set_script s i) = true.
 Proof.
